@@ -464,7 +464,7 @@ func (g *histGen) tx() {
 	val := n.Vals[rng.Intn(len(n.Vals))]
 	unit := sdkmath.NewInt(1_000_000_000_000_000)
 	amt := func(k int) sdk.Coin { return sdk.NewCoin(vn.Denom, unit.MulRaw(int64(rng.Intn(k)+1))) }
-	f := rng.Intn(46)
+	f := rng.Intn(48)
 	if g.boostRewardFees && rng.Intn(5) == 0 {
 		f = 28
 	}
@@ -528,7 +528,7 @@ func (g *histGen) tx() {
 			g.contracts = append(g.contracts, addr)
 			g.constr["account-with-storage-and-no-code"]++
 		}
-	case f >= 40:
+	case f >= 40 && f <= 42:
 		g.ibcTx(a, b)
 	case f < 3:
 		g.cosmos("bank.send", a, banktypes.NewMsgSend(a.Addr, b.Addr, sdk.NewCoins(amt(100))))
@@ -666,8 +666,8 @@ func (g *histGen) tx() {
 				}
 			}
 		}
-	case f == 23 || f == 24: // liquid vesting
-		if len(g.vestAccs) > 0 && rng.Intn(2) == 0 {
+	case f == 23 || f == 24 || f == 46 || f == 47: // liquid vesting
+		if len(g.vestAccs) > 0 && rng.Intn(2) == 0 && f < 46 {
 			v := g.vestAccs[rng.Intn(len(g.vestAccs))]
 			if !g.usedInBlk[v.Addr.String()] {
 				g.usedInBlk[v.Addr.String()] = true
@@ -675,6 +675,28 @@ func (g *histGen) tx() {
 				if g.cosmos("liquidvesting.liquidate", v, lvtypes.NewMsgLiquidate(v.Addr, v.Addr, amt(200))) {
 					g.liquid = append(g.liquid, lvtypes.DenomBaseNameFromID(cnt))
 					g.constr["token-pair-registered"]++
+				}
+			}
+		} else if len(g.liquid) > 0 && len(g.vestAccs) > 0 && (f >= 46 || rng.Intn(3) == 0) {
+			// the newest liquid denom is redeemed completely by its holder (the denom is deleted, the counter stays)
+			d := g.liquid[len(g.liquid)-1]
+			for _, v := range g.vestAccs {
+				bal := n.Balance(v.Addr, d)
+				// liquid tokens are handed out in their ERC20 form; Redeem converts back what it needs
+				if pair, ok := n.App.Erc20Keeper.GetTokenPair(n.Ctx(), n.App.Erc20Keeper.GetTokenPairID(n.Ctx(), d)); ok {
+					if tb := n.App.Erc20Keeper.BalanceOf(n.Ctx(), erc20ABI(), pair.GetERC20Contract(), v.Eth); tb != nil {
+						bal = bal.Add(sdkmath.NewIntFromBigInt(tb))
+					}
+				}
+				if bal.IsPositive() && !g.usedInBlk[v.Addr.String()] {
+					g.usedInBlk[v.Addr.String()] = true
+					if g.cosmos("liquidvesting.redeem-everything", v, lvtypes.NewMsgRedeem(v.Addr, v.Addr, sdk.NewCoin(d, bal))) {
+						if n.Supply(d).IsZero() {
+							g.constr["liquid-denom-fully-redeemed"]++
+							g.liquid = g.liquid[:len(g.liquid)-1]
+						}
+					}
+					break
 				}
 			}
 		} else if len(g.liquid) > 0 {
